@@ -51,6 +51,41 @@ CHECKS = {
         "Trusts pbt/reftree.py. Ill-formed streams are outside the quantifier.",
         "DESIGN.md section 3 C09",
     ),
+    "C07": (
+        "fault_enumeration",
+        "property-based testing / fault injection (Hypothesis): generated programs with hostile field values x fault masks over serializers, extractors and destinations; every public call wrapped, any exception other than the program's own is a violation (bucketed by call, type, innermost eliot frame)",
+        "Generated programs whose field values come from a hostile table and whose serializers, extractors and destinations fail on generated subsets of calls; each public logging call must return normally or raise exactly the application's exception object. Holds on everything generated.",
+        "Destinations/serializers/extractors raise Exception subclasses only (caller contract). A bounded stack budget makes runaway recursion surface as RecursionError quickly.",
+        "DESIGN.md section 3 C07",
+    ),
+    "C08": (
+        "fault_enumeration",
+        "property-based testing / fault injection (Hypothesis): destination sets x failure masks x programs; per-destination offered sequences compared with a reference model of the statement (one report per failure, in registration order, none for reports)",
+        "Generated sets of 1-4 recording destinations with generated failure masks and exception classes (incl. equal classes, late registration) under generated programs; every destination's offered sequence and every report is checked against a model of the property statement. Holds on everything generated.",
+        "Destinations raise Exception subclasses only and do not mutate messages. Concurrent fan-out is covered by the handover/concurrent facets of C12/C13.",
+        "DESIGN.md section 3 C08",
+    ),
+    "C12": (
+        "exploration",
+        "stateful property-based testing (Hypothesis RuleBasedStateMachine + operation-list strategy) against a reference model of buffering/registration/global fields; harness-owned line-level thread schedules (generated and enumerated) for the hand-over race",
+        "Histories of log / add / remove / add_global_fields (incl. >1000 buffered) are executed against a fresh Destinations and a reference model, compared after every step; the hand-over from buffering is additionally run under generated and enumerated line-level interleavings of logging threads against the first add. Holds on everything explored.",
+        "Under concurrency only loss/duplication is asserted. The scheduler assumes pausing at line events does not change the traced code's result.",
+        "DESIGN.md section 3 C12",
+    ),
+    "C13": (
+        "fault_enumeration",
+        "property-based testing / fault injection (Hypothesis): typed emissions with counting non-idempotent serializers x fault masks (raising serializers, omitted fields); exactly-once, non-mutation and report-placement oracles",
+        "Generated scenarios of typed messages/actions (start, success, failure, stand-alone, direct Logger.write) with counting wrappers around non-idempotent serializers and generated fault masks; delivered values, call counts, caller data, and the number and placement of traceback + serialization_failure reports are checked per emission. Holds on everything generated.",
+        "Serializers are pure and raise Exception subclasses; exactly-once is asserted on the Logger -> destinations path only.",
+        "DESIGN.md section 3 C13",
+    ),
+    "C16": (
+        "exploration",
+        "schedule exploration: harness-owned line-level scheduler (sys.settrace + cooperative locks) over eliot/_output.py with Hypothesis-generated plans and complete single-preemption enumeration; free-running threads as an extra stress facet; exact post-join oracles",
+        "Real threads are driven through generated and enumerated interleavings at source-line granularity inside the output layer (MemoryLogger operations; FileDestination on a file whose write() is a yield point); pairing of messages and serializers, traceback bookkeeping, snapshot consistency and line integrity are checked after join. Holds on every schedule explored.",
+        "Pausing a thread at a line event does not change what the code computes; preemption inside one C-level write is only reached by the free-running facet.",
+        "DESIGN.md section 3 C16",
+    ),
 }
 
 NOT_YET = "check not built yet in this round; see DESIGN.md for the planned generator and oracle"
